@@ -146,9 +146,12 @@ def no_redecorate(decor: Callable[P, T]) -> Callable[P, T]:
     @wraps(decor)
     def no_redecorate_wrapper(*args: P.args, **kwargs: P.kwargs) -> T:
         obj: Any = args[0]
-        if not hasattr(obj, f"_{decor.__name__}_wrapped_"):
+        # The mark identifies the marked object; anything that merely copied it along
+        # with the other attributes of a decorated object (e.g. via
+        # `functools.wraps()`) has not been decorated itself.
+        if getattr(obj, f"_{decor.__name__}_wrapped_", None) is not obj:
             obj = decor(*args, **kwargs)
-            setattr(obj, f"_{decor.__name__}_wrapped_", ...)
+            setattr(obj, f"_{decor.__name__}_wrapped_", obj)
 
         return obj  # type: ignore[no-any-return]
 
